@@ -140,7 +140,7 @@ func runMc(c McCase) (res ev.Result) {
 }
 
 var mcOptions = ev.NewCheck("C14", "midicatdrv-option-sets",
-	"rapid: 3..25 whole messages (channel voice of 2 and 3 bytes, active sense, timing clock, other real-time, sysex, system common) injected line by line into the process-backed driver running against the stand-in helper; midi.ListenTo under all 8 option sets on the same open port, each time followed by a second Listen call with the opposite options that the driver rejects (a rejected call must change nothing); oracle (metamorphic) as in 'option-sets': run(opts) == projection of run(all on), content, order and time stamps; non-trivial = active sense, timing clock and sysex all present; distinct by case hash",
+	"rapid: 3..25 whole messages (channel voice of 2 and 3 bytes, active sense, timing clock, other real-time, sysex incl. the universal ones (MTC full frame, MMC commands, GM on, identity request, master volume), system common) injected line by line into the process-backed driver running against the stand-in helper; midi.ListenTo under all 8 option sets on the same open port, each time followed by a second Listen call with the opposite options that the driver rejects (a rejected call must change nothing); oracle (metamorphic) as in 'option-sets': run(opts) == projection of run(all on), content, order and time stamps; non-trivial = active sense, timing clock and sysex all present; distinct by case hash",
 	func(t *rapid.T) McCase {
 		var c McCase
 		n := rapid.IntRange(3, 25).Draw(t, "n")
@@ -153,6 +153,12 @@ var mcOptions = ev.NewCheck("C14", "midicatdrv-option-sets",
 				m = []byte{0xF8}
 			case 2:
 				m = append(append([]byte{0xF0}, rapid.SliceOfN(rapid.ByteRange(0, 127), 1, 8).Draw(t, "syx")...), 0xF7)
+				if rapid.Bool().Draw(t, "wellKnownSysex?") {
+					m = live.Message(t, nil, 1024)
+					for tries := 0; m[0] != 0xF0 && tries < 40; tries++ { // a sysex of the shared generator (incl. its dictionary of universal messages)
+						m = live.Message(t, nil, 64)
+					}
+				}
 			case 3:
 				m = []byte{rapid.SampledFrom([]byte{0xFA, 0xFB, 0xFC}).Draw(t, "rt")}
 			case 4:
@@ -170,6 +176,14 @@ var mcOptions = ev.NewCheck("C14", "midicatdrv-option-sets",
 func TestPropMidicatOptionSets(t *testing.T) {
 	if ev.Shard() >= 2 && !ev.Thorough() {
 		return // process spawning: two shards are enough in the quick tier
+	}
+	// first a fixed case: every universal sysex message between messages of the other classes
+	var dict McCase
+	for i, m := range live.WellKnownSysex(0x7F) {
+		dict.Msgs = append(dict.Msgs, m, [][]byte{{0xFE}, {0xF8}, {0x90, 60, 100}, {0xFA}, {0xC1, 5}}[i%5])
+	}
+	if ev.Shard() == 0 {
+		mcOptions.One(t, dict)
 	}
 	mcOptions.Rapid(t, 4, 25)
 }
